@@ -14,6 +14,7 @@ mod c12;
 mod c13;
 mod c14;
 mod c15;
+mod c16;
 
 pub fn level_of(p: &str) -> &'static str {
     match p {
@@ -37,6 +38,7 @@ fn dispatch(ctx: &Ctx, replay: Option<&serde_json::Value>) {
         "C13" => c13::run(ctx, replay),
         "C14" => c14::run(ctx, replay),
         "C15" => c15::run(ctx, replay),
+        "C16" => c16::run(ctx, replay),
         p => {
             eprintln!("unknown property {p}");
             std::process::exit(2);
